@@ -129,7 +129,7 @@ class World:
             cls.__module__ = self.modname
             cls._tcv_key = key
             self.classes[key] = cls
-        for name in ('Auto1', 'Auto2', 'Plain1', 'Hand1', 'MemBox'):
+        for name in ('Auto1', 'Auto2', 'Auto3', 'Plain1', 'Hand1', 'MemBox'):
             mod.__dict__[name].__module__ = self.modname
         self.module = mod
         public = [n for n in mod.__dict__ if not n.startswith('_')]
@@ -754,6 +754,16 @@ class Auto2(_h.AutoParameterObject):
     @staticmethod
     def dont_persist_default_value_args():
         return ['c']
+
+
+class Auto3(Auto1):
+    """subclass extending the constructor: its own argument must be part of the representation"""
+    def __init__(self, a, pad=0):
+        super().__init__(a)
+        self.pad = pad
+
+    def _tcv_state(self):
+        return {'a': self.a, 'pad': self.pad}
 
 
 class Plain1:
